@@ -358,6 +358,18 @@ VARIANTS += [
 ]
 
 
+# ---- round 8 (DESIGN §25): twins of the new rules (the seeds themselves are the faults)
+VARIANTS += [
+    V("twin-limits-guard-unpacked", ["C17", "C03"], H, "        other = ImmutableKnotVector(other)\n        if self.limits != other.limits:\n            raise ValueError\n        all_knots = list(self.knots) + list(other.knots)\n", "        other = ImmutableKnotVector(other)\n        umin, umax = self.limits\n        vmin, vmax = other.limits\n        if umin != vmin or umax != vmax:\n            raise ValueError\n        all_knots = list(self.knots) + list(other.knots)\n", None, None, "interval test written end by end", twin=True),
+    V("twin-newton-candidates-list", ["C19"], A, "        tvalues = {umin, umax}", "        tvalues = set([umin, umax])", None, None, "candidate set built from a list", twin=True),
+    V("twin-gate-tolerance-le", ["C05", "C16"], C, "        if tolerance is not None and error > tolerance:\n", "        if tolerance is not None and not error <= tolerance:\n", None, None, "refusal written as not error <= tolerance", twin=True),
+    V("twin-remove-guard-new-degree-first", ["C05"], C, "        newknotvec = self.knotvector - tuple(nodes)\n        knots = newknotvec.knots if newknotvec.degree != 0 else None\n", "        newknotvec = self.knotvector - tuple(nodes)\n        knots = None if newknotvec.degree == 0 else newknotvec.knots\n", None, None, "guard on the new degree, other way round", twin=True),
+    V("twin-or-default-ones-list", ["C07"], C, "            if weights1 is None:\n                weights1 = (1,) * npts1\n", "            if weights1 is None:\n                weights1 = [1] * othercopy.npts\n", None, None, "stand-in weights as a list sized by the same operand", twin=True),
+    V("twin-fit-error-max-abs-inline", ["C14", "C05"], C, "            error = np.max(np.abs(error))\n            error += abs(np.dot(oldweights, np.dot(materror, oldweights)))\n", "            error = np.abs(error).max()\n            error += abs(np.dot(oldweights, np.dot(materror, oldweights)))\n", None, None, "largest absolute entry with the method form", twin=True),
+    V("twin-scalar-nodes-renamed", ["C10"], CA, "            nodes = tuple((1 - node) * start + node * end for node in nodes_0to1)\n            curve_vals = tuple(piece.eval(node) for node in nodes)\n            function_vals = tuple(function(node) for node in nodes)\n", "            spannodes = tuple((1 - node) * start + node * end for node in nodes_0to1)\n            curve_vals = tuple(piece.eval(node) for node in spannodes)\n            function_vals = tuple(function(node) for node in spannodes)\n", None, None, "mapped nodes renamed", twin=True, near=169),
+]
+
+
 def _sources(src_dir: str, v: dict) -> Optional[dict]:
     edits = v.get("edits") or [(v["module"], v["old"], v["new"])]
     out: Dict[str, str] = {}
